@@ -20,6 +20,10 @@ static Outcome runCase(const KV& c)
     LP.build(p, threads, (int)c.getI("coarse_split_mode", 0), (int)c.getI("coarse_circles", 0), (int)c.getI("level_depth", 0));
     if (c.getI("level_depth", 0) > 0)
         o.cls("deeper_level_pair");
+    if (c.getI("warm_earlier_pair", 0)) {
+        warmUpOnEarlierPair(LP, p, threads, (int)c.getI("level_depth", 0));
+        o.cls("interpolation_object_used_on_an_earlier_pair");
+    }
     const PolarGrid& fg = LP.fine->grid();
     const PolarGrid& cg = LP.coarse->grid();
     const int nf = fg.numberOfNodes(), nc = cg.numberOfNodes();
@@ -253,6 +257,7 @@ static KV genCase()
     c.putI("coarse_split_mode", rint(0, 1));
     c.putI("coarse_circles", rint(0, (p.nr() + 1) / 2));
     c.putI("level_depth", rweighted({3, 1, 1}));
+    c.putI("warm_earlier_pair", rweighted({2, 1}));
     c.putI("x_kind", rweighted({4, 3, 1, 1, 1, 1}));
     c.putU("x_seed", rseed());
     c.putI("vec_scale_exp", rpick({0, 0, 0, 0, 0, 0, -300, -100, 100, 300}));
